@@ -473,6 +473,7 @@ def dec_bytes(res, i=0):
 
 class C01(ApiProp):
     pid = "C01"
+    level_text = "Coq theorems c01_step / c01_history / c01_ledger / c01_constructors: from every state satisfying the invariant (every constructor establishes it), for every SIZE, both overflow profiles, every operation of the public API with every argument, and every finite history, the model's outcome refines the FIFO-queue specification Spec/Fifo.v (reads hand out exactly a prefix, accepted writes append exactly the accepted bytes, nothing else changes the unread bytes; len/is_empty/readable report the queue). Tie: model = implementation on every reachable state of FixedBuf<0..3> x every op x (thinned) pairs, plus random histories; an independent FIFO-ledger checker runs on the implementation traces."
     coq_targets = ["Props/C01.vo"]
     nontrivial_rule = ("exhaustive: every reachable (read offset, write offset) state of FixedBuf<0..3> x every op instance with boundary "
                        "arguments x (thinned) every second op; random histories on sizes up to 4096 with 75% valid bias; "
@@ -568,6 +569,7 @@ class C01(ApiProp):
 # ---------------------------------------------------------------- C03
 class C03(ApiProp):
     pid = "C03"
+    level_text = 'Coq theorems c03_step / c03_history / c03_write_boundary / c03_constructors: every API step refines the (len, writable) ledger of Spec/Capacity.v from every invariant state for every SIZE and history: writes succeed iff n <= writable and then move exactly n, refused and failed calls change nothing, shift gives SIZE-len, clear gives SIZE, reads never reduce writable, an empty buffer has all capacity writable, len+writable <= SIZE. Tie: as C01, observables writable().len(), len(), Ok/Err of the write paths; ledger checker on implementation traces.'
     coq_targets = ["Props/C03.vo"]
     nontrivial_rule = C01.nontrivial_rule + "; observables: writable().len(), len(), Ok/Err of the write paths"
 
@@ -640,6 +642,7 @@ def script_panics(steps, ln):
 
 class C04(ApiProp):
     pid = "C04"
+    level_text = 'Coq theorems c04_step (panics iff documented, for every op, argument up to usize::MAX and both overflow profiles; after a panic the invariant holds and the buffer is unchanged as specified), c04_read_bytes / c04_read_byte / c04_wrote (function-level iff, never a silent success), c04_text_no_panic, c04_deframers, and c04_pinned_refuted (the pre-fix bodies violate the contract in release: regression oracle). Tie: every history is run in the dev AND release cargo profiles under catch_unwind, with overflow-class arguments at every read offset.'
     coq_targets = ["Props/C04.vo"]
     nontrivial_rule = C01.nontrivial_rule + "; every history is run in the dev profile (overflow checks on) and the release profile (off)"
 
@@ -702,6 +705,7 @@ class C04(ApiProp):
 # ---------------------------------------------------------------- C10
 class C10(ApiProp):
     pid = "C10"
+    level_text = 'Coq theorems c10_deframe (exact result and state of deframe(f) in every invariant state for every in-bounds deframer: nothing consumed on empty / None / Err / panic) and c10_frame (exactly n bytes consumed, rest unchanged, mem untouched, mem()[range] = the selected payload, rewind case included). Tie: histories reaching non-zero read offsets and frames ending exactly at the end of the unread bytes, 7 deframers incl. length-prefix (payload at offset 1), mem()[range] compared.'
     coq_targets = ["Props/C10.vo"]
     with_mem = True
     nontrivial_rule = ("API histories that reach non-zero read offsets, then deframe(f) for seven deframers (3 provided, rejecting, "
@@ -799,6 +803,7 @@ class C10(ApiProp):
 # ---------------------------------------------------------------- C11
 class C11(ApiProp):
     pid = "C11"
+    level_text = "Coq theorems c11_try_parse (for any closure: Some passes through, None restores both indices) and c11_script (for every script over the reading API with any nesting, from every invariant state: None => the whole state is unchanged; Some => exactly the closure's consumption; panic => invariant kept). Tie: script grid from every reachable small state plus random nested scripts."
     coq_targets = ["Props/C11.vo"]
     nontrivial_rule = ("API histories whose try_parse closures are scripts over the reading API (nesting depth <= 3, draining "
                        "scripts over-represented) from every reachable small state and random larger ones; "
